@@ -206,6 +206,7 @@ def run_property(pid, tier, only=None, keep=False, seed=0):
 
 def write_evidence(pid, tier, seed, spec, records, violations, known_hits, inconclusive, wall):
     samples = []
+    all_stubs = set()
     evaluations = 0
     nontrivial = 0
     solver_s = 0.0
@@ -226,7 +227,8 @@ def write_evidence(pid, tier, seed, spec, records, violations, known_hits, incon
                          covers=[dict(desc=d, status=st) for (d, st, _l) in r.covers],
                          vccs_generated=r.vccs[0], vccs_remaining=r.vccs[1],
                          solver_s=round(r.solver_s, 2), symex_s=round(r.symex_s, 2), wall_s=round(r.wall_s, 1),
-                         unwind_rules=[list(x) for x in (u.rules or [])])
+                         unwind_rules=[list(x) for x in (u.rules or [])], stubs_applied=len(r.stubs))
+                all_stubs.update(r.stubs)
                 evaluations += r.total
                 queries += 1
                 solver_s += r.solver_s
@@ -263,6 +265,7 @@ def write_evidence(pid, tier, seed, spec, records, violations, known_hits, incon
             solver_queries=queries,
             solver_time_s=round(solver_s, 2),
             functions_encoded=sorted(functions),
+            stubs_and_models=sorted(all_stubs),
             outside_the_claim=spec.get("outside", []),
             exhaustive=False,
             explanation="bounded, solver-decided: every verdict is UNSAT within the stated bounds or a replayed model",
